@@ -13,6 +13,7 @@ TABLE = {
     "C04": ("c04", ()),
     "C05": ("c05", ()),
     "C07": ("c07", ()),
+    "C08": ("c08", ()),
     "C09": ("c09", ()),
     "C10": ("c10", ()),
     "C11": ("c11", ()),
